@@ -334,6 +334,7 @@ fn run_job(job: &Job) -> Value {
         g.rec_steps = job.rec.iter().any(|r| r == "step");
         g.rec_mem = job.rec.iter().any(|r| r == "mem");
         g.rec_sites = job.rec.iter().any(|r| r == "site");
+        g.rec_alts = job.rec.iter().any(|r| r == "alts");
         g.yield_relaxed = !job.no_yield_relaxed;
         g.free_run = true;
         g.seq_mode = nthreads == 0;
@@ -530,7 +531,7 @@ fn run_job(job: &Job) -> Value {
         .map(|t| json!({"steps": t.steps, "locks": t.lock_events, "parks": t.park_events, "spins": t.spin_events}))
         .collect();
     json!({"id": job.id, "outcome": format!("{:?}", outcome), "nsteps": g.nsteps, "uaf": g.uaf,
-           "drift": drift, "schedule": g.schedule, "threads": per_thread, "end": end, "ev": g.trace})
+           "drift": drift, "schedule": g.schedule, "alts": g.alts, "threads": per_thread, "end": end, "ev": g.trace})
 }
 
 fn main() {
